@@ -318,6 +318,31 @@ pub fn halfway_family(spec: &Spec, kind: Kind, abs_bits: u64, rng: &mut Rng, tho
             let z = [1usize, 5, 20][rng.below(3) as usize];
             below.extend(std::iter::repeat((r - 1) as u8).take(z));
             sink(Case { text: render(spec, &below, kk + z as i64, &st), tag: "tie-minus-epsilon" });
+            // the same with the sticky digit hundreds of digits away, and the decimal point placed (a) after every
+            // digit, (b) right before the sticky digit - so that the integer component alone already holds more
+            // digits than any parser keeps - (c) inside the zero run, (d) before every digit
+            let nlong = if thorough { 6 } else { 2 };
+            for _ in 0..nlong {
+                let total = 40 + rng.below(1260) as usize;
+                let z = total.saturating_sub(d.len() + 1);
+                let mut above = d.clone();
+                above.extend(std::iter::repeat(0).take(z));
+                above.push(1);
+                let mut ls = st;
+                ls.frac_zeros = 0;
+                ls.int_len = match rng.below(5) {
+                    0 => usize::MAX,
+                    1 | 2 => above.len() - 1,
+                    3 => d.len() + z / 2,
+                    _ => 0,
+                };
+                sink(Case { text: render(spec, &above, kk + z as i64 + 1, &ls), tag: "tie-plus-epsilon" });
+                if rng.chance(1, 2) {
+                    let mut below = decr(&d, r);
+                    below.extend(std::iter::repeat((r - 1) as u8).take(z + 1));
+                    sink(Case { text: render(spec, &below, kk + z as i64 + 1, &ls), tag: "tie-minus-epsilon" });
+                }
+            }
             // tie followed by explicit zeros only (still a tie)
             let mut tz = st;
             tz.trail_zeros = 1 + rng.below(40) as usize;
